@@ -89,6 +89,13 @@ def build_harness(work, race=False, extra_overlay=None, name="harness"):
         pass
     out = work.path(name)
     cmd = ["go", "build", "-tags", "verif", "-overlay", ovf, "-o", out]
+    if REPO != "/repo":
+        # scratch worktree of the repository (seeded-change trials): same harness, module replaced through a private go.mod
+        mf = work.path("go-%s.mod" % name)
+        txt = open(os.path.join(HARNESS, "go.mod")).read().replace("=> /repo", "=> " + REPO)
+        open(mf, "w").write(txt)
+        shutil.copy(os.path.join(REPO, "go.sum"), work.path("go-%s.sum" % name))
+        cmd += ["-modfile", mf]
     e = goenv()
     if race:
         cmd.insert(2, "-race")
@@ -282,7 +289,7 @@ class Report:
 
     def violation(self, case, why):
         self.violations += 1
-        d = os.path.join(VERIF, "replays", self.prop)
+        d = os.path.join(os.environ.get("VERIF_REPLAY_DIR", os.path.join(VERIF, "replays")), self.prop)
         os.makedirs(d, exist_ok=True)
         blob = json.dumps({"property": self.prop, "why": why, "case": case}, sort_keys=True, indent=1)
         h = hashlib.sha1(blob.encode()).hexdigest()[:12]
@@ -305,8 +312,9 @@ class Report:
             ev["coverage"][k] = v
         if not ev["coverage"]["samples"]:
             ev["coverage"]["samples"] = ["(none)"]
-        os.makedirs(os.path.join(VERIF, "evidence"), exist_ok=True)
-        with open(os.path.join(VERIF, "evidence", self.prop + ".json"), "w") as f:
+        evdir = os.environ.get("VERIF_EVIDENCE_DIR", os.path.join(VERIF, "evidence"))
+        os.makedirs(evdir, exist_ok=True)
+        with open(os.path.join(evdir, self.prop + ".json"), "w") as f:
             json.dump(ev, f, indent=1, sort_keys=True, default=str)
 
     def finish(self):
